@@ -143,6 +143,13 @@ def make_data(d):
     s = np.full(n, d.get("sigma", 0.2))
     t = d["truth"]
     y = t[0] + t[1] * x + t[2] * x * x + s * rs.randn(n)
+    if d.get("unsorted", True):
+        # the rows of a data file come in no particular order and with their own error bars: same rows, permuted, errors spread by +-30 %
+        # (drawn after the values above so that the sorted, equal-error data sets of earlier runs are reproduced by unsorted=False)
+        s = s * (0.7 + 0.6 * rs.rand(n))
+        y = t[0] + t[1] * x + t[2] * x * x + (y - (t[0] + t[1] * x + t[2] * x * x)) / d.get("sigma", 0.2) * s
+        perm = rs.permutation(n)
+        x, y, s = x[perm], y[perm], s[perm]
     return x, y, s
 
 
